@@ -31,7 +31,7 @@
         lz_inv(*final(self)),
         lz_ext(*old(self), *final(self)),
         final(self).domain == old(self).domain, final(self).bounds == old(self).bounds,
-        forall|env: Env| #[trigger] lz_ok(*final(self), env) <==> lz_ok(*old(self), env) && c_holds(constraint, env),
+        forall|env: Env| #[trigger] lz_ok(*final(self), env) <==> lz_ok(*old(self), env) && c_holds_w(constraint, env),
 @fn Linearizer::add_constraint @end
     proof {
         reveal(lz_inv); reveal(lz_ok); reveal(lz_ext);
@@ -48,10 +48,11 @@
                 assert(b.constraints@[j + 1] == c);
             }
         }
-        assert forall|env: Env| #[trigger] lz_ok(b, env) <==> lz_ok(a, env) && c_holds(constraint, env) by {
+        assert(b.linear_constraints == a.linear_constraints);
+        assert forall|env: Env| #[trigger] lz_ok(b, env) <==> lz_ok(a, env) && c_holds_w(constraint, env) by {
             if lz_ok(b, env) {
                 assert(b.constraints@.contains(constraint));
-                assert forall|c: Constraint| #[trigger] a.constraints@.contains(c) implies c_holds(c, env) by { assert(b.constraints@.contains(c)); }
+                assert forall|c: Constraint| #[trigger] a.constraints@.contains(c) implies c_holds_w(c, env) by { assert(b.constraints@.contains(c)); }
             }
         }
     }
@@ -81,6 +82,7 @@
         assert forall|k: Seq<char>| #[trigger] b.domain.has(k) implies vt_wf(b.domain.map()[k].as_type) by { if k != nm { assert(a.domain.has(k)); } }
         assert forall|k: Seq<char>| #[trigger] b.domain.has(k) <==> #[trigger] b.bounds.variable_bounds.has(k) by {
             if k != nm { assert(a.domain.has(k) <==> a.bounds.variable_bounds.has(k)); assert(b.domain.has(k) <==> a.domain.has(k)); assert(b.bounds.variable_bounds.has(k) <==> a.bounds.variable_bounds.has(k)); } }
+        assert(b.linear_constraints == a.linear_constraints);
         assert forall|env: Env| #[trigger] lz_ok(b, env) <==> lz_ok(a, env) && in_domain(as_type, env[nm]) by {
             if lz_ok(b, env) {
                 assert(b.constraints@ == a.constraints@);
